@@ -386,9 +386,6 @@ def run_shard(desc, seed, tier, col):
 
     def body(x):
         case, scheds = x
-        if any(fz.nested_bitstring_segments(case['T'], e) for e in case['encs']):
-            col.exclude('nested constructed BIT STRING segments (known finding F08, reported by C09)')
-            return
         seen = set()
         if case['long']:
             for f in run_long(case, col):
